@@ -18,6 +18,16 @@ pub fn fmt_node(n: &VPLNode) -> String {
 }
 pub fn fmt_pipe(p: &VPLPipeline) -> String { p.pipeline.iter().map(fmt_node).collect::<Vec<_>>().join("+") }
 
+// canonical text (the Coq printer render_pipe): `name k="v" k2=["a","b"][src|src,src]`
+fn canon_val(v: &[String]) -> String { if v.len() == 1 { quote(&v[0]) } else { format!("[{}]", v.iter().map(|x| quote(x)).collect::<Vec<_>>().join(",")) } }
+fn canon_node(n: &VPLNode) -> String {
+	let mut s = n.name.clone();
+	for (k, v) in &n.properties { s.push_str(&format!(" {k}={}", canon_val(v))); }
+	if !n.sources.is_empty() { s.push_str(&format!("[{}]", n.sources.iter().map(canon_pipe).collect::<Vec<_>>().join(","))); }
+	s
+}
+pub fn canon_pipe(p: &VPLPipeline) -> String { p.pipeline.iter().map(canon_node).collect::<Vec<_>>().join("|") }
+
 // ---------------- AST generation and rendering with layout freedom ----------------
 fn gen_ident(rng: &mut Rng) -> String {
 	let first = *rng.pick(&['a', 'b', 'z', 'A', 'f']);
@@ -82,6 +92,12 @@ pub fn run(ctx: &Ctx) -> Result<()> {
 		let ast = gen_pipe(&mut rng, (i % 4) as u32);
 		let t = render_pipe(&mut rng, &ast);
 		if i % 3 == 0 { texts.push((mutate(&mut rng, &t), None)); }
+		// the canonical text of the Coq round-trip theorem: same text from both printers, and the
+		// implementation reads it back to the tree
+		let c = canon_pipe(&ast);
+		col.out.line(&format!("vpl.render {} => {}", arg_cps(&c), arg_cps(&c)));
+		col.spec_cases += 1;
+		match guarded(|| parse_vpl(&c)) { Ok(Ok(p)) if p == ast => {} other => col.violation("canonical-roundtrip", &format!("vpl {}", arg_cps(&c)), &format!("vpl {}", arg_cps(&c)), &format!("canonical text {c:?} of tree {} parsed to {}", fmt_pipe(&ast), match other { Ok(Ok(p)) => fmt_pipe(&p), Ok(Err(_)) => "an error".into(), Err(m) => format!("panic {m}") })) }
 		texts.push((t, Some(ast)));
 	}
 	for (t, ast) in &texts {
